@@ -946,6 +946,28 @@ func (u *Unit) callByContract(c *ast.CallExpr, fi *FuncInfo, blk *Block, recv *V
 	u.usedContracts[fi.Key] = blk.Prop
 	sig := fi.Obj.Type().(*types.Signature)
 	scope := u.paramScope(fi, recv, args)
+	// the callee's clauses read parameters at the types of this call's arguments when the representation is the same
+	// (a map[T]R parameter instantiated with pointer values reads the pointer-valued map heap)
+	if c != nil && !c.Ellipsis.IsValid() {
+		i := 0
+		for _, fld := range fi.Decl.Type.Params.List {
+			for _, n := range fld.Names {
+				if i < len(c.Args) && i < sig.Params().Len() && !(sig.Variadic() && i == sig.Params().Len()-1) {
+					if at := u.Info.TypeOf(c.Args[i]); at != nil {
+						if v, ok := scope[n.Name]; ok {
+							if b, isB := at.(*types.Basic); !(isB && b.Info()&types.IsUntyped != 0) && u.sortOf(at) == v.Sort {
+								scope[n.Name] = Value{v.Term, at}
+							}
+						}
+					}
+				}
+				i++
+			}
+			if len(fld.Names) == 0 {
+				i++
+			}
+		}
+	}
 	sc := &specCtx{names: scope, fi: fi, clockBase: env.clock, old: env.clone(), blk: blk}
 	// ghost variables of the callee: passed by name from the caller's ghost of the same name (else arbitrary)
 	type gbind struct {
@@ -1043,11 +1065,17 @@ func (u *Unit) callByContract(c *ast.CallExpr, fi *FuncInfo, blk *Block, recv *V
 		u.typeInvariant(env, rv, rt)
 		gvals = append(gvals, Value{rv, rt})
 		name := fmt.Sprintf("r%d", i)
-		scope[name] = Value{rv, rt}
-		sc.oldNames[name] = Value{rv, rt}
+		// in the callee's clauses the result has the type of this call's instantiation when that has the same representation
+		// (e.g. map[T]R instantiated with a pointer-valued R reads the pointer-valued map heap)
+		st := rt
+		if i < len(callTys) && callTys[i] != nil && u.sortOf(callTys[i]) == rv.Sort {
+			st = callTys[i]
+		}
+		scope[name] = Value{rv, st}
+		sc.oldNames[name] = Value{rv, st}
 		if n := sig.Results().At(i).Name(); n != "" {
-			scope[n] = Value{rv, rt}
-			sc.oldNames[n] = Value{rv, rt}
+			scope[n] = Value{rv, st}
+			sc.oldNames[n] = Value{rv, st}
 		}
 	}
 	for _, g := range ghosts {
@@ -1212,6 +1240,7 @@ func (u *Unit) havocForCall(env *Env, pre *Env, mods modSet) {
 	for _, n := range names {
 		u.havocOneForCall(env, n, env.heaps[n])
 	}
+	u.assumeClosedHeaps(env)
 }
 
 type postFrame struct {
@@ -1434,6 +1463,10 @@ func (u *Unit) dispatchIface(c *ast.CallExpr, se *ast.SelectorExpr, sel *types.S
 		return nil, false
 	}
 	if u.dispatchMode(typeNameOf(sel.Recv())) == "off" {
+		return nil, false
+	}
+	if u.Block != nil && u.Block.Opts["guarded"] != "" && u.dispatchMode(typeNameOf(sel.Recv())) != "force" {
+		// a wrapper verified for the lock discipline treats the wrapped object as opaque: one delegated call
 		return nil, false
 	}
 	type impl struct {
